@@ -7,7 +7,7 @@ from . import c01, c03
 
 ID = "C02"
 KINDS = {"U": ["weight_triangle", "nearest_decoder_corrects", "ml_is_nearest", "ml_corrects", "ml_corrects_large", "syndrome_decoder_corrects", "syndrome_table_entry", "hamming_inverse_corrects",
-               "bm_reduction (BMProofs.correct_add_of_zero, syndAt_codeword)", "bm_corrects_small", "bm_output_certified (BMProofs.light_zero_syndromes_zero)", "bm_corrects_t1 (BMProofs.bm_t1, locate_single)", "bm_corrects_t2 (BMProofs.bm_t2, disc2_char2, locate_pair)", "bm_no_error",
+               "bm_reduction (BMProofs.correct_add_of_zero, syndAt_codeword)", "bm_corrects_small", "bm_output_certified (BMProofs.light_zero_syndromes_zero)", "bm_corrects_t1 (BMProofs.bm_t1, locate_single)", "bm_corrects_t2 (BMProofs.bm_t2, disc2_char2, locate_pair)", "bm_no_error", "bm_root_search_exact", "bm_syndromes_conjugate",
                "ReedProofs.reed_corrects (reed_decoder_corrects)"],
          "R": ["syndrome_decoder_instances"],
          "K": ["C03.instances_ok (distances, shared catalogue)", "C01.instances_ok (null space, right inverse)", "C03.bch_ok", "bm_light_small", "reed_ok", "reed_instances_in_catalogue"]}
